@@ -615,6 +615,42 @@ func c03(x *mon.Ctx) {
 				check(x, wi, c)
 				n++
 			}
+			// the other order: the first answer is GENUINE BUT PAST ITS nextUpdate, and the endpoint — asked again or not — would
+			// answer with an unsigned / foreign-signed document that is in date and says UpToDate. An expired document does not
+			// become acceptable through anything that came after it without a signature.
+			{
+				we := w.Clone()
+				we.Tcb.IssueDate, we.Tcb.NextUpdate = world.Epoch.Add(-40*world.Day), world.Epoch.Add(-time.Hour)
+				we.Resign()
+				for name, second := range map[string][]byte{
+					"unsigned-member-only":         []byte(`{"tcbInfo":` + full + `}`),
+					"unsigned-member-bad-sig-type": []byte(`{"tcbInfo":` + full + `,"signature":0}`),
+					"unsigned-member-other-case":   []byte(`{"TCBINFO":` + full + `}`),
+					"signed-by-foreign-key":        world.SignedBody("tcbInfo", full, world.NewKey()),
+					"truncated":                    []byte(`{"tcbInfo":` + full),
+				} {
+					c := we.Case(world.LColl, "endpoint-answers-twice", fmt.Sprintf("w%d/tcbinfo/signed-but-expired-then-%s", wi, name))
+					c.RespSeq = map[string][]world.Resp{tcbURL: {{H: c.Resp[tcbURL].H, B: we.TcbBody}, {H: c.Resp[tcbURL].H, B: second}}}
+					c.Expect, c.ShadowSkip = "reject", true
+					check(x, wi, c)
+					n++
+				}
+				wqe := w.Clone()
+				wqe.Qe.IssueDate, wqe.Qe.NextUpdate = world.Epoch.Add(-40*world.Day), world.Epoch.Add(-time.Hour)
+				wqe.Resign()
+				qeU := world.QeIdentityURL()
+				for name, second := range map[string][]byte{
+					"unsigned-member-only":       []byte(`{"enclaveIdentity":` + qeFull + `}`),
+					"unsigned-member-other-case": []byte(`{"ENCLAVEIDENTITY":` + qeFull + `}`),
+					"unsigned-member-sig-0":      []byte(`{"enclaveIdentity":` + qeFull + `,"signature":0}`),
+				} {
+					c := wqe.Case(world.LColl, "endpoint-answers-twice", fmt.Sprintf("w%d/qeidentity/signed-but-expired-then-%s", wi, name))
+					c.RespSeq = map[string][]world.Resp{qeU: {{H: c.Resp[qeU].H, B: wqe.QeBody}, {H: c.Resp[qeU].H, B: second}}}
+					c.Expect, c.ShadowSkip = "reject", true
+					check(x, wi, c)
+					n++
+				}
+			}
 			// the QE Identity the same way: the signed document's deciding level is OutOfDate, the unsigned first answer says UpToDate
 			wq := w.Clone()
 			for i := range wq.Qe.Levels {
